@@ -141,6 +141,10 @@ func (c *checkCtx) finish() int {
 	if len(c.cov.Samples) == 0 {
 		c.cov.Samples = []any{"(no cases)"}
 	}
+	if c.cov.TrustedBase == nil {
+		c.cov.TrustedBase = []string{}
+	}
+	c.cov.Disagreements = len(c.findings)
 	ev := evidence{
 		PropertyID: c.id, Tier: c.tier, Seed: c.seed, Level: c.level, Coverage: c.cov,
 		Assumptions: c.assume, WallS: time.Since(c.start).Seconds(), Violations: violations,
